@@ -90,6 +90,9 @@ def run_case(case):
     ncells = 0
     for tg in subsets:
         tg = [str(x) for x in tg]
+        if case["index"] % 2 == 0:
+            # same names, other bodies, same targets, same process, right before the judged call
+            pipeline.run_sibling(desc, simulate=True, targets=tg, counters=cnt)
         try:
             df = simcheck.simulate_once(fsim, params, init, vf, seed=7, targets=tg if tg else None)
         except Exception as e:  # noqa: BLE001
